@@ -5,6 +5,15 @@ pub type Body = fn(&mut ReplaySource);
 
 pub fn bodies() -> Vec<(&'static str, Body)> {
     vec![
+        ("valid_identifier_4", crate::c_scalar::valid_identifier_4::<ReplaySource> as Body),
+        ("valid_identifier_6", crate::c_scalar::valid_identifier_6::<ReplaySource> as Body),
+        ("single_line_comment_7", crate::c_scalar::single_line_comment_7::<ReplaySource> as Body),
+        ("single_line_comment_9", crate::c_scalar::single_line_comment_9::<ReplaySource> as Body),
+        ("token_shift", crate::c_scalar::token_shift::<ReplaySource> as Body),
+        ("raw_bytes", crate::c_scalar::raw_bytes::<ReplaySource> as Body),
+        ("quote_symbol", crate::c_scalar::quote_symbol::<ReplaySource> as Body),
+        ("special_floats", crate::c_scalar::special_floats::<ReplaySource> as Body),
+        ("luau_number", crate::c_scalar::luau_number::<ReplaySource> as Body),
         ("fuse_tokens", crate::c02_fuse::fuse_tokens::<ReplaySource> as Body),
         ("fuse_dense", crate::c02_fuse::fuse_dense::<ReplaySource> as Body),
         ("ev_equal", crate::c08_scalar::ev_equal::<ReplaySource> as Body),
